@@ -147,15 +147,16 @@ class Instr:
     __slots__=('res','op','txt')
 class Func:
     def __init__(s): s.blocks={}; s.order=[]; s.params=[]
+LAYOUT_GUARDS={}
 class Module:
     def __init__(s,path):
-        s.types={}; s.funcs={}; s.globals={}; s.aliases={}; s.decls=set(); s.tp=TypeParser(s)
+        s.types={}; s.funcs={}; s.globals={}; s.aliases={}; s.decls=set(); s.rawtypes={}; s.tp=TypeParser(s)
         lines=open(path).read().split('\n'); i=0
         while i<len(lines):
             l=lines[i]
             m=re.match(r'%("[^"]*"|[\w.$-]+) = type (.*)$',l)
             if m:
-                s.types[m.group(1).strip('"')]=s.tp.parse(m.group(2))[0]
+                s.types[m.group(1).strip('"')]=s.tp.parse(m.group(2))[0]; s.rawtypes[m.group(1).strip('"')]=m.group(2)
             elif l.startswith('@'):
                 m=re.match(r'@("[^"]*"|[\w.$-]+) = (.*)$',l)
                 ma=re.search(r'\balias\b.*@("[^"]*"|[\w.$-]+)\s*$',m.group(2))
@@ -194,6 +195,14 @@ class Module:
                 s.funcs[f.name]=f
             i+=1
 
+        # ---- layout guard: the harnesses address members of these structs by position; a tree whose member list has another shape is not
+        # analysed with wrong offsets (which could produce a false violation) but refused: Unsupported -> INCONCLUSIVE
+        for name,pats in LAYOUT_GUARDS.items():
+            raw=s.rawtypes.get(name)
+            if raw is None or raw.strip()=='opaque': continue
+            els=[e.strip() for e in split_top(raw.strip().lstrip('<').rstrip('>').strip()[1:-1])]
+            if len(els)<len(pats) or any(not re.search(p_,e) for p_,e in zip(pats,els)):
+                raise Unsupported('member list of %s is not the one the harnesses were written for (%s): harness needs updating'%(name,raw[:200]))
 def block_succs(blk):
     t=blk[-1] if blk else ''
     return re.findall(r'label %([\w.$-]+)',t)
